@@ -249,6 +249,9 @@ def stub_format(stub, mode, text):
     out = black.format_str(text, mode=_black_mode(mode))  # raises on code it cannot parse, like `black -` exiting non-zero
     if stub == "requote":
         out = _requote(out)
+    if stub == "black-crlf":
+        # a formatter configured for windows line ends (e.g. ruff format with line-ending = "cr-lf")
+        out = out.replace("\r\n", "\n").replace("\n", "\r\n")
     return out
 
 
